@@ -9,7 +9,7 @@
 use crate::midi::*;
 use crate::scan::*;
 use core::time::Duration;
-use helgoboss_midi::verif_hooks::set_now_ticks;
+use helgoboss_midi::verif_hooks::set_now_ticks_advancing;
 use helgoboss_midi::*;
 use std::sync::atomic::{AtomicBool, Ordering};
 use xs::{h64, Step, System, Violation};
@@ -113,6 +113,10 @@ pub struct PollSys {
     /// not whole milliseconds use a finer tick, so that polls fall between whole milliseconds and
     /// exactly on the timeout. `now`, `timeout`, `cap`, ages and pauses are all in ticks.
     pub tick_ns: u64,
+    /// ticks by which the mock clock moves on after EVERY reading the scanner takes (0 normally):
+    /// time passing *during* a call. Only used without an output oracle (C18: no panic, no
+    /// allocation), because a call that reads the clock twice then sees two different instants.
+    pub advance: u64,
     /// an astronomically long timeout given as a Duration (never expires within any explored age);
     /// chosen so that a conversion truncated to 32 or 64 bits aliases it to zero
     pub exotic: Option<(Duration, &'static str)>,
@@ -184,6 +188,7 @@ impl PollSys {
             timeout,
             timeout_us: timeout.saturating_mul(1000),
             tick_ns: 1_000_000,
+            advance: 0,
             exotic: None,
             cap: cap_for(timeout, cap_mult),
             pauses: if WRAP16.load(Ordering::Relaxed) { vec![998, 1000, (1 << 16) - 2, 1 << 16, (1 << 20) + 100, (1 << 32) - 2, 1 << 32] } else { vec![998, 1000, (1 << 20) + 100, (1 << 32) - 2, 1 << 32] },
@@ -296,7 +301,7 @@ impl PollSys {
     }
 
     fn clock(&self, ticks: u64) {
-        set_now_ticks(ticks, self.tick_ns);
+        set_now_ticks_advancing(ticks, self.tick_ns, self.advance);
     }
 
     /// renders a number of ticks as milliseconds
@@ -633,7 +638,7 @@ impl System for PollSys {
         self.pid.to_string()
     }
     fn name(&self) -> String {
-        format!("PollingParameterNumberMessageScanner x history-observer [ch={}, timeout={}, tick={}us, age cap={}, |alphabet|={}, probes={}, transparent={}]", self.ch, self.tname(), self.tick_ns / 1000, self.cap, self.alphabet.len(), self.probes.len(), self.noncontrib.len())
+        format!("PollingParameterNumberMessageScanner x history-observer [ch={}, timeout={}, tick={}us, clock advance per reading={}, age cap={}, |alphabet|={}, probes={}, transparent={}]", self.ch, self.tname(), self.tick_ns / 1000, self.advance, self.cap, self.alphabet.len(), self.probes.len(), self.noncontrib.len())
     }
     fn init(&self) -> PoState {
         self.clock(0);
@@ -763,8 +768,8 @@ impl System for PollSys {
             PoAct::Cc(c, v) | PoAct::CcProbe(c, v) => format!("println!(\"{{:?}}\", scanner.feed(&helgoboss_midi::test_util::control_change({}, {}, {})));", self.ch, c, v),
             PoAct::Other(_) | PoAct::Transparent(_) => format!("// feed {}", self.render(a)),
             PoAct::Poll => format!("println!(\"{{:?}}\", scanner.poll(helgoboss_midi::test_util::channel({})));", self.ch),
-            PoAct::Tick => format!("clock += 1; helgoboss_midi::verif_hooks::set_now_ticks(clock, {}); // one tick = {} us", self.tick_ns, self.tick_ns / 1000),
-            PoAct::Pause(i) => format!("clock += {}; helgoboss_midi::verif_hooks::set_now_ticks(clock, {});", self.pauses[*i as usize], self.tick_ns),
+            PoAct::Tick => format!("clock += 1; helgoboss_midi::verif_hooks::set_now_ticks_advancing(clock, {}, {}); // one tick = {} us", self.tick_ns, self.advance, self.tick_ns / 1000),
+            PoAct::Pause(i) => format!("clock += {}; helgoboss_midi::verif_hooks::set_now_ticks_advancing(clock, {}, {});", self.pauses[*i as usize], self.tick_ns, self.advance),
             PoAct::ResetStorm(i) => {
                 let (n, traffic) = self.storms[*i as usize];
                 if traffic {
